@@ -63,6 +63,9 @@ type Config struct {
 	TimerFirst  bool  // offer "fire earliest timer now" as a cost-1 alternative at scheduling points
 	// Demote adds the deviation "demote the running thread" (see schedule).
 	Demote bool
+	// LowThreads honours threads started with GoLow (they run only when nothing else can, or
+	// when a deviation of cost 1 picks them) without offering self-demotion everywhere.
+	LowThreads bool
 	// FlatCosts makes a switch to *any* other enabled thread cost 1 (preemption bounding)
 	// instead of its distance in the round-robin order (delay bounding): more executions per
 	// bound, but no thread is out of reach of a single deviation.
@@ -363,7 +366,7 @@ func (x *Exec) schedule(self *Thread, selfDone bool, label string) {
 			}
 		}
 		nNormal := len(opts)
-		if x.cfg.Demote {
+		if x.cfg.Demote || x.cfg.LowThreads {
 			// demoted threads come after every thread of normal priority
 			var normal, low []*Thread
 			for _, t := range opts {
@@ -401,8 +404,8 @@ func (x *Exec) schedule(self *Thread, selfDone bool, label string) {
 			costs := make([]int, nopt)
 			for i := range opts {
 				costs[i] = i
-				if x.cfg.FlatCosts && i > 1 {
-					costs[i] = 1
+				if i > 1 && (x.cfg.FlatCosts || opts[i].low) {
+					costs[i] = 1 // a demoted thread is always one deviation away
 				}
 			}
 			for i := nthreads; i < nopt; i++ {
@@ -579,6 +582,24 @@ func GoNamed(name, group string, f func()) *Thread {
 		name = fmt.Sprintf("%s/g%d", group, len(x.threads))
 	}
 	t := x.newThread(name, group)
+	x.startThread(t, f)
+	x.yield(nil, "go")
+	return t
+}
+
+// GoLow starts a thread of low priority (see Config.LowThreads): it stands for something that may
+// happen at any moment - a signal handler, say - and runs where a deviation puts it, or at the
+// very end when nothing else can run.
+func GoLow(name, group string, f func()) *Thread {
+	x := X
+	if x.teardown {
+		return nil
+	}
+	if group == "" {
+		group = x.cur.Group
+	}
+	t := x.newThread(name, group)
+	t.low = true
 	x.startThread(t, f)
 	x.yield(nil, "go")
 	return t
